@@ -23,6 +23,7 @@ package workers
 //@
 //@ func New
 //@   props C03
+//@   modifies nothing
 //@   ensures result != nil && result.maxIterations == maxIterations && result.iteration == 0 && result.activeScenario == activeScenario
 //@
 //@ // History lemma: a counter that only moves by `issue` steps hands out pairwise distinct, gapless ids 1..k, k <= N.
@@ -93,6 +94,34 @@ package workers
 //@   ensures [cleanups] forall j int :: 0 <= j && j < GnCleanups ==> Gcalled[j] == old(Gcalled[j]) + 1
 //@   ensures [done] Gphase == 8 && tracks(s.progress) && state.t.tearingDown && wfState(state)
 //@
+//@ // ---- setup (C06, C16): the scenario's setup function runs once, recovered; its outcome is read after the
+//@ // recovery and exactly one setup sample is exported with that outcome.
+//@ func (*ActiveScenario).Setup$1
+//@   props C06 C16 C07
+//@   requires s != nil && s.scenario != nil && s.scenario.ScenarioFn != nil && wfT(s.t) && !s.t.tearingDown
+//@   dyncall ScenarioFn : userSetup
+//@   ghost at entry : Gpan = false
+//@   ghost onpanic call dyn:ScenarioFn : Gpan = true
+//@   modifies s.t.failed, s.t.teardownFailed, s.t.teardownStack, s.scenario.RunFn, Gmarks, Gpan
+//@   ensures [contained] s.t.failed <==> (old(s.t.failed) || Gmarks > old(Gmarks) || Gpan)
+//@   ensures [run-fn] !Gpan ==> s.scenario.RunFn != nil
+//@   ensures [wf] wfT(s.t) && !s.t.tearingDown && Gmarks >= old(Gmarks)
+//@
+//@ func (*ActiveScenario).Setup
+//@   props C06 C16
+//@   requires s != nil && s.scenario != nil && s.scenario.ScenarioFn != nil && wfT(s.t) && !s.t.tearingDown && !s.t.failed && s.m != nil && s.m.Setup != nil
+//@   ghost at entry : Gphase = 0
+//@   ghost before call Setup$1 : assert [once] Gphase == 0 ; Gphase = 1
+//@   ghost after call Setup$1 : Gphase = 2 ; GmarksAtBody = Gmarks
+//@   ghost after call (*T).Failed #0 : assert [outcome-after-setup] Gphase == 2 ; Gphase = 3 ; Gfailed = ret0
+//@   ghost before call (*Metrics).RecordSetupResult #0 : assert [metric-after-outcome] Gphase == 3 ; assert [metric-args] arg1 == s.scenario.Name && arg2 == (Gfailed ? "fail" : "success") ; Gphase = 4
+//@   modifies s.t.failed, s.t.teardownFailed, s.t.teardownStack, s.scenario.RunFn, Gmarks, Gpan, Gphase, Gfailed, GmarksAtBody, GMsetup, Gclock
+//@   ensures [classified] Gfailed <==> (GmarksAtBody > old(Gmarks) || Gpan)
+//@   ensures [outcome] Gfailed == s.t.failed
+//@   ensures [one-sample] (Gfailed ==> GMsetup["fail"] == old(GMsetup["fail"]) + 1 && GMsetup["success"] == old(GMsetup["success"])) &&
+//@           (!Gfailed ==> GMsetup["success"] == old(GMsetup["success"]) + 1 && GMsetup["fail"] == old(GMsetup["fail"]))
+//@   ensures [done] Gphase == 4 && wfT(s.t)
+//@
 //@ func (*ActiveScenario).RecordDroppedIteration
 //@   props C01 C02 C16
 //@   requires wfScenario(s) && tracks(s.progress)
@@ -116,12 +145,14 @@ package workers
 //@ // ---- C04: a fixed pool of `concurrency` workers, each owning a fresh handle
 //@ func (*ActiveScenario).newIterationState
 //@   props C04 C03 C07 C01
+//@   modifies nothing
 //@   requires s.scenario != nil
 //@   ensures [fresh] fresh(result) && fresh(result.t) && result.t < result
 //@   ensures [wf] wfState(result) && !result.t.failed && !result.t.tearingDown
 //@
 //@ func (*PoolManager).makeIterationStatePool
 //@   props C04 C03 C07 C01 C14
+//@   modifies nothing
 //@   requires numWorkers >= 0 && m.activeScenario != nil && m.activeScenario.scenario != nil
 //@   loop 0 invariant 0 <= i && i < numWorkers && len(statePool) == numWorkers && fresh(statePool)
 //@   loop 0 invariant forall a int :: 0 <= a && a < i ==> fresh(statePool[a]) && fresh(statePool[a].t) && statePool[a].t < statePool[a] && wfState(statePool[a])
@@ -213,23 +244,27 @@ package workers
 //@
 //@ func newTriggerPool
 //@   props C04 C14
+//@   modifies nothing
 //@   requires numWorkers >= 0 && wfManager(m)
 //@   ensures [wf] wfTriggerPool(result) && result.numWorkers == numWorkers && result.manager == m && fresh(result)
 //@   ensures [idle] result.jobsToExecute.num == 0 && !result.stopWorkers
 //@
 //@ func newContinuousPool
 //@   props C04 C14
+//@   modifies nothing
 //@   requires numWorkers >= 0 && wfManager(m)
 //@   ensures [wf] wfContinuousPool(result) && result.numWorkers == numWorkers && result.manager == m && fresh(result)
 //@   ensures [idle] !result.stopWorkers
 //@
 //@ func (*PoolManager).NewTriggerPool
 //@   props C04 C14
+//@   modifies nothing
 //@   requires numWorkers >= 0 && wfManager(m)
 //@   ensures wfTriggerPool(result) && result.numWorkers == numWorkers && result.manager == m
 //@
 //@ func (*PoolManager).NewContinuousPool
 //@   props C04 C14
+//@   modifies nothing
 //@   requires numWorkers >= 0 && wfManager(m)
 //@   ensures wfContinuousPool(result) && result.numWorkers == numWorkers && result.manager == m
 //@
@@ -259,8 +294,17 @@ package workers
 //@   props C09 C02
 //@   requires wfTriggerPool(p) && ctx != nil
 //@   ghost before call (*TriggerPool).sendJobsForExecution : assert [unchanged] arg1 == numJobs && arg0 == p
+//@   modifies p.jobsToExecute.num, GMiter, p.manager.activeScenario.progress.successfulIterationDurations.running, p.manager.activeScenario.progress.failedIterationDurations.running,
+//@            p.manager.activeScenario.progress.droppedIterationCount, NrecS, NrecF, NrecD, SumS, SumF, MinS, MinF, MaxS, MaxF
+//@   ensures [wf] wfTriggerPool(p)
 //@
+//@ // C02 (supersede): the requests still pending when a new count arrives are reported dropped at that moment, each
+//@ // exactly once, and the new count replaces them
 //@ func (*TriggerPool).sendJobsForExecution
-//@   props C02 C05
+//@   props C02 C05 C09
 //@   requires wfTriggerPool(p)
-//@   loop 0 invariant wfTriggerPool(p)
+//@   modifies p.jobsToExecute.num, GMiter, p.manager.activeScenario.progress.successfulIterationDurations.running, p.manager.activeScenario.progress.failedIterationDurations.running,
+//@            p.manager.activeScenario.progress.droppedIterationCount, NrecS, NrecF, NrecD, SumS, SumF, MinS, MinF, MaxS, MaxF
+//@   loop 0 invariant wfTriggerPool(p) && 0 <= rangeiter && rangeiter < jobsDiscarded && p.manager == old(p.manager) && p.manager.activeScenario == old(p.manager.activeScenario) && p.manager.activeScenario.progress == old(p.manager.activeScenario.progress) && NrecD == (old(NrecD) + rangeiter) % 18446744073709551616 && NrecS == old(NrecS) && NrecF == old(NrecF) && p.jobsToExecute.num == numJobs
+//@   ensures [replaced] p.jobsToExecute.num == numJobs && wfTriggerPool(p)
+//@   ensures [superseded-dropped] NrecD == (old(NrecD) + max(0, old(p.jobsToExecute.num))) % 18446744073709551616 && NrecS == old(NrecS) && NrecF == old(NrecF)
